@@ -173,7 +173,52 @@ def special_sites(tier='thorough', seed=0):
     for i in range(24):
         lat = -86.25 + i * 7.5
         sites.append(('antimeridian', 180.0 if i % 2 else -180.0, lat))
+    # the meridian(s) at which the library's own spherical -> lon/lat conversion wraps (its raw longitude range is not [-180, 180]):
+    # a seam of the code that is not a seam of the sphere, discovered by scanning to_lonlat for jumps
+    for wl in lon_wrap_meridians():
+        lats = [-78.0 + 12.0 * i for i in range(14)]
+        for lat in (lats if tier == 'thorough' else lats[seed % 2::2]):
+            sites.append(('lon_wrap', wl, lat))
     return sites
+
+
+_WRAPS = None
+
+
+def lon_wrap_meridians():
+    """longitudes (in [-180, 180], +-180 excluded) at which a5's to_lonlat jumps as the azimuth goes once round; steering only"""
+    global _WRAPS
+    if _WRAPS is None:
+        out = []
+        try:
+            from a5.core.coordinate_transforms import to_lonlat
+            n = 7200
+            prev_t, prev = None, None
+            for i in range(n + 1):
+                t = -math.pi + 2 * math.pi * i / n
+                lon = to_lonlat((t, 1.0))[0]
+                if prev is not None and abs(lon - prev) > 180.0:
+                    a, b = prev_t, t
+                    for _ in range(60):
+                        m = 0.5 * (a + b)
+                        if abs(to_lonlat((m, 1.0))[0] - prev) > 180.0:
+                            b = m
+                        else:
+                            a = m
+                    w = sp.wrap_lon(to_lonlat((a, 1.0))[0])
+                    if abs(abs(w) - 180.0) > 1e-6 and all(abs(w - x) > 1e-6 for x in out):
+                        out.append(w)
+                prev_t, prev = t, lon
+            # the scan interval itself may end on the jump (azimuth +-pi)
+            lo, hi = to_lonlat((-math.pi, 1.0))[0], to_lonlat((math.pi, 1.0))[0]
+            if abs(hi - lo) > 180.0:
+                w = sp.wrap_lon(hi)
+                if abs(abs(w) - 180.0) > 1e-6 and all(abs(w - x) > 1e-6 for x in out):
+                    out.append(w)
+        except Exception:
+            out = []
+        _WRAPS = out
+    return _WRAPS
 
 
 def inside_points(cell, r, insets):
